@@ -126,6 +126,52 @@ Section Structure.
     | _ => None
     end.
 
+  (* REPAIR VARIANT (proposed_fixes/C12-config-one-place.diff, switched off): class and name of the configuration lookup are
+     taken from ONE place of the prior, its last path p: the class is that of the object holding the prior there
+     (object_for_path(p[:-1]); the Model holding the tuple for a tuple member; ModelInstance for a Collection; float for
+     an arithmetic prior) *)
+  Definition own_place_class : bool := false.
+
+  Fixpoint holder_class (p : path) (n : node) : option string :=
+    match p with
+    | [] => None
+    | k :: p' =>
+        let own := match n with
+                   | NModel cls _ _ => Some cls
+                   | NColl _ => Some "ModelInstance"
+                   | NBin _ _ _ _ _ => Some "float"
+                   | _ => None
+                   end in
+        match p' with
+        | [] => own
+        | _ :: rest =>
+            match n with
+            | NModel _ _ attrs | NColl attrs =>
+                (fix go (a : list (string * node)) : option string :=
+                   match a with
+                   | [] => None
+                   | (k', c) :: a' =>
+                       if String.eqb k k'
+                       then match (match c with
+                                   | NTuple _ => match rest with [] => own | _ => None end
+                                   | _ => holder_class p' c
+                                   end) with
+                            | Some x => Some x
+                            | None => go a'
+                            end
+                       else go a'
+                   end) attrs
+            | NBin _ ln rn l r =>
+                let down (c : node) := match c with
+                                       | NTuple _ => match rest with [] => own | _ => None end
+                                       | _ => holder_class p' c
+                                       end in
+                if String.eqb k rn then down r else if String.eqb k ln then down l else None
+            | _ => None
+            end
+        end
+    end.
+
   (* the name and path of the LAST place of a prior in the walk (unique_prior_tuples / path_for_prior) *)
   Definition last_path (q : nat) (n : node) : option path :=
     (fix find (l : list (nat * path)) : option path :=
@@ -133,6 +179,12 @@ Section Structure.
        | [] => None
        | (k, p) :: l' => if Nat.eqb k q then Some p else find l'
        end) (unique_priors V n).
+
+  (* the class of the configuration lookup: prior_class_dict[prior] today; the holder of the last place once repaired *)
+  Definition lookup_class (q : nat) (n : node) : option string :=
+    if own_place_class
+    then match last_path q n with Some p => holder_class p n | None => None end
+    else class_of q n.
 
   Definition is_digit (c : ascii) : bool :=
     let k := nat_of_ascii c in Nat.leb 48 k && Nat.leb k 57.
@@ -214,7 +266,7 @@ Section Pass.
 
   (* ---- mapper_from_prior_means ---- *)
   Definition derive_mean (a r : option V) (no_limits : bool) (n : node) (q : nat) (m : V) : res spec :=
-    match class_of V q n with
+    match lookup_class V q n with
     | None => Exc EKey
     | Some cls =>
       match last_path V q n with
